@@ -9,7 +9,10 @@ def c01_union_fixpoint_ambiguous(clause, case, detail):
     (its marshaller accepts v, or its unmarshaller accepts the own member's wire form) and reads it
     non-canonically, marshal(unmarshal(T, m)) != m. The harness decides 'captured' independently
     with member routines built on their own (case['ambiguous'])."""
-    return clause == "union-fixpoint" and case.get("ambiguous") in ("marshal-captured", "unmarshal-captured")
+    # ... and it is a matter of (type, value) alone: the same calls give the same once every cache was cleared (the check
+    # records case['diag'] = 'history-dependent' otherwise, which is a different violation)
+    return (clause == "union-fixpoint" and case.get("ambiguous") in ("marshal-captured", "unmarshal-captured")
+            and case.get("diag") != "history-dependent")
 
 
 @predicate("duration_float_precision")
